@@ -1,13 +1,6 @@
 import MtxVerif.Model.C37
-import MtxVerif.Gen.C37
+-- no import of Gen/C37: the model is the JSON encoding the property asks for; facts are for theorems only
 open MtxVerif MtxVerif.C37
-
-def parseNP (s : String) : Option (List Nat) :=
-  if s == "-" then some [] else (s.splitOn ",").mapM (·.toNat?)
-
-/-- `strconv.IsPrint`: ASCII by range, the rest from the oracle column -/
-def mkIsPrint (np : List Nat) (r : Nat) : Bool :=
-  if r < 0x80 then decide (0x20 ≤ r ∧ r ≤ 0x7E) else !np.contains r
 
 def kv (s pre : String) : Option String :=
   if s.startsWith pre then some (s.drop pre.length).toString else none
@@ -22,52 +15,41 @@ def fmtGoJSON (line ts : Bytes) : String :=
   | none => "gojson=err tseq=0"
 
 /-- spec for one destination's bytes -/
-def specBytes (dest : String) (q : Option Quoter) (isPrint : Nat → Bool) (written ts : Bytes) (lvl : Nat) (m : Bytes)
-    (tseq : Bool) (modelLine : Bytes) : String :=
-  let bad (why : String) : String :=
-    if q == some .strconvQuote && goQuoteNonJSON isPrint m && written == modelLine then
-      s!"KNOWN goQuoteNonJSON {dest}: {why} (message has a control byte / invalid UTF-8 / non-printable rune that strconv.Quote writes as \\a \\v \\x.. or \\U........)"
-    else s!"FAIL {dest}: {why}"
+def specBytes (dest : String) (written ts : Bytes) (lvl : Nat) (m : Bytes) (tseq : Bool) : String :=
   match parseLine written with
-  | none => bad "record is not one line holding a JSON object with string fields"
+  | none => s!"FAIL {dest}: record is not one line holding a JSON object with string fields"
   | some ms =>
-    if field ms kLevel != some (levelStr lvl) then bad "level field does not decode to the record's level"
-    else if field ms kMessage != some (sanitize m) then bad "message field does not decode to the formatted message"
+    if field ms kLevel != some (levelStr lvl) then s!"FAIL {dest}: level field does not decode to the record's level"
+    else if field ms kMessage != some (sanitize m) then s!"FAIL {dest}: message field does not decode to the formatted message"
     else if field ms kTimestamp == some ts || (tseq && (field ms kTimestamp).isSome) then "ok"
-    else bad "timestamp field does not decode to the record's time"
+    else s!"FAIL {dest}: timestamp field does not decode to the record's time"
 
 def step (_ : Unit) (op impl : String) : Unit × DrvOut :=
   match words op with
   | ["reset"] => ((), { model := "ok" })
-  | ["log", lvl, _sec, _nsec, _off, _fmt, _arg, msgH, tsH, npS] =>
-    match lvl.toNat?, Hex.decode msgH, Hex.decode tsH, parseNP npS with
-    | some lvl, some m, some ts, some np =>
-      let isPrint := mkIsPrint np
-      -- `none` = the extractor did not recognise the routine: no prediction ("-"), spec only
-      let qs := MtxVerif.Gen.C37.stdoutQuoter?
-      let qf := MtxVerif.Gen.C37.fileQuoter?
-      let lineS := lineOf (quoteWith (qs.getD .jsonMarshal) isPrint m) ts lvl
-      let lineF := lineOf (quoteWith (qf.getD .jsonMarshal) isPrint m) ts lvl
+  | ["log", lvl, _sec, _nsec, _off, _fmt, _arg, msgH, tsH, _np] =>
+    match lvl.toNat?, Hex.decode msgH, Hex.decode tsH with
+    | some lvl, some m, some ts =>
+      let line := lineOf (jsonString m) ts lvl
       -- `Logger.Log` drops records below `Logger.Level` (the harness runs with Level = Debug = 1)
-      let model := if lvl < 1 then "out=- file=same gojson=err tseq=0"
-        else if qs.isNone || qf.isNone then "-" else
-        s!"out={Hex.encode lineS} file={if lineF == lineS then "same" else Hex.encode lineF} {fmtGoJSON lineS ts}"
+      let model := if lvl < 1 then "out=- file=same gojson=err tseq=0" else
+        s!"out={Hex.encode line} file=same {fmtGoJSON line ts}"
       let spec :=
         if lvl < 1 || lvl > 4 then "ok"       -- not a level of the logger: outside the property
         else match words impl with
         | [o, f, _g, tq] =>
           match (kv o "out=").bind Hex.decode, kv f "file=", kv tq "tseq=" with
           | some out, some fs, some tq =>
-            let v1 := specBytes "stdout" qs isPrint out ts lvl m (tq == "1") lineS
+            let v1 := specBytes "stdout" out ts lvl m (tq == "1")
             if v1 != "ok" then v1
             else if fs == "same" then "ok"
             else match Hex.decode fs with
-              | some fb => specBytes "file" qf isPrint fb ts lvl m false lineF
+              | some fb => specBytes "file" fb ts lvl m false
               | none => "FAIL unparsable implementation answer"
           | _, _, _ => "FAIL unparsable implementation answer"
         | _ => "FAIL unparsable implementation answer: " ++ impl
       ((), { model, spec })
-    | _, _, _, _ => ((), { model := "bad-op" })
+    | _, _, _ => ((), { model := "bad-op" })
   | _ => ((), { model := "bad-op" })
 
 def main (args : List String) : IO UInt32 := runDriver args () step
